@@ -486,6 +486,22 @@ CLAIMED.update(
     }
 )
 
+CLAIMED.update(
+    {
+        "C02": (
+            "dataflow of the line id from register_line to the spliced probe; partition-representative evaluation of should_instrument_line per version; loop-shape rule on the probe loop; guard rule on the tracer callbacks; table agreement between instrumentation method calls and tracer methods; who-may-write rule on covered_line_ids",
+            "Decides the plumbing clauses for all five supported versions: the id a probe reports is the one register_line returned for (code object, file of the code object, line of the probed instruction) and the probe "
+            "is spliced in front of that instruction; should_instrument_line (interpreted from source through the version inheritance chain) never selects an instruction without a line, selects a new line, does not "
+            "select the same line twice in a row and skips the function prologue; the probe loop considers every instruction of a block (no break / return; continue only for excluded or line-less instructions); every "
+            "tracer callback reachable from instrumented code records only while tracing is enabled; every InstrumentationMethodCall names an existing tracer / provider method with that arity, forwarded in order; "
+            "compute_line_coverage is |covered_line_ids| / |existing_lines| and covered_line_ids is written by track_line_visit and merge only. "
+            "Not decided: that `first instruction of a line within a basic block` reports exactly the interpreter's LINE events for arbitrary control flow (a fact about CPython's line table), nor the END_FOR / POP_TOP skip lists.",
+            "Trusts sa/checks/_instr.py (call-site extraction) and sa/engine/peval.py.",
+            "DESIGN.md §3 C02",
+        ),
+    }
+)
+
 NOT_APPLICABLE: dict[str, str] = {
     "C06": "Correctness of the post-dominator/CDG construction on every code object is functional correctness of a graph "
     "algorithm; no shape of the code implies it and no sound static argument in reach bounds 'all code objects'.",
